@@ -75,6 +75,23 @@ func ruleVolumeUpdatesFlow(c *core.Ctx) {
 	}
 	info = regEnv.info
 	regBody := regEnv.d.Decl.Body
+	// a posting whose source and destination are the same account must be registered once: the
+	// accumulation adds its amount to the output and to the input of every registered copy. The
+	// registration therefore has to compare the two sides somewhere.
+	selfTest := false
+	for _, e := range scopeEnvs(c, d) {
+		ast.Inspect(e.d.Decl.Body, func(n ast.Node) bool {
+			if be, ok := n.(*ast.BinaryExpr); ok && (be.Op == token.EQL || be.Op == token.NEQ) {
+				l, r := roleOfExpr(be.X), roleOfExpr(be.Y)
+				if (l == "Source" && r == "Destination") || (l == "Destination" && r == "Source") {
+					selfTest = true
+				}
+			}
+			return true
+		})
+	}
+	c.Check(selfTest, "FLOW/volume-updates", key+":self-posting-once", pos(c, regLoop), "source == destination handled in the registration",
+		"nothing in VolumeUpdates compares a posting's source with its destination: a posting from an account to itself is registered under that account twice, and its amount is added twice to the account's input and output (stored volumes, post- and pre-commit volumes and the moves are inflated; the balance hides it)")
 	// appendsTwoLevel: the node appends into m[..][..]
 	appendsTwoLevel := func(n ast.Node) bool {
 		found := false
